@@ -14,8 +14,8 @@ ends with its closing token followed by comment/whitespace leaves only: later pa
 sub-group (`(x as)` → `Parenthesis[ (, Identifier[x as )] ]`) but never move it, re-type it, or put a non-comment leaf
 behind it.
 
-Not proved (validated differentially, 0 disagreements on 134 158 safe statements, see the report): the child-level
-implication `DelimSafe st → delimShapeL (group … st)`.  Every rejected neighbourhood has an absorbing witness:
+The child-level implication `DelimSafe st → delimShapeL (group … st)` is proved in `SqlProofs/DelimChild/*`
+(`Sql.delims_kept_childwise`).  Every neighbourhood `DelimSafe` rejects has an absorbing witness:
 `(::int)`, `(x::)`, `( as x)`, `(x as)`, `f( as)`, `(a := )`, `case , x end`, `case x , end`, `case x as end`,
 `case :: x end`, `(at time zone 'utc' as x)`, `begin select 1 where x end`, `if x where y end if`, `case begin end`,
 `case when a then begin x end end`, `for x in y loop z , end loop`.
